@@ -16,7 +16,10 @@
      any failing message rolls back to the state after the fee (runTx; C02).
    The reported verdict must be the predicted one, every Commit dump must equal the predicted
    state field by field (tier by tier), and all invariants of Bank.tla are evaluated in every
-   recorded state. `ante` (did the ante handler accept) is an input: signatures are C15's.     *)
+   recorded state. `ante` (did the ante handler accept) is an input: signatures are C15's.
+   A transaction may have a second signer (`signers`; its message names it in `from`); the fee
+   is always the first signer's, and the fee collector "coll" is a keyed account that also signs -
+   alone, first and second - at the end of every recorded history.                              *)
 EXTENDS Bank
 
 TheTrace == ndJsonDeserialize("bank_trace.ndjson")
